@@ -177,26 +177,20 @@ func runSyncQ(c *Ctx, prop string) {
 						ck, cv, ek, em := know(t, i)
 						pred := held && ck && !cv && ek && em
 						c.check(pred, "C13.wait-loop", name, e.Pos, "", "the consumer waits without holding the mutex or without having just found `buffer empty AND open`", c.witness(t, i)...)
-						retested := false
+						// re-test after waking: the first use of the buffer after the Wait needs `buffer not empty`
+						// established by a Length() reading taken after the Wait; a path that does not use the buffer
+						// any more is judged by the closed-answer rule below (or is cut at the loop head)
+						retested := true
 						for j := i + 1; j < len(t.Events); j++ {
 							x := t.Events[j]
-							if x.Kind == EvLoopGen || x.Kind == EvLoad || x.Kind == EvBranch {
-								continue
+							if condCall(x, "Wait") {
+								break
 							}
-							if bufCall(x, "Length") {
-								retested = true
+							if bufCall(x, "Peek") || bufCall(x, "Remove") {
+								_, _, ek, em := know(t, j)
+								retested = ek && !em
+								break
 							}
-							break
-						}
-						if !retested && t.End == EndCut {
-							only := true
-							for j := i + 1; j < len(t.Events); j++ {
-								x := t.Events[j]
-								if x.Kind != EvLoopGen && x.Kind != EvLoad && x.Kind != EvBranch {
-									only = false
-								}
-							}
-							retested = only
 						}
 						c.check(retested, "C13.wait-loop", name+" re-test", e.Pos, "", "after Cond.Wait the predicate is not re-evaluated before the buffer is used", c.witness(t, i)...)
 					}
